@@ -88,6 +88,18 @@ def run(tier):
                     continue        # thousands of input blocks: longer than the horizon of the harness, not a livelock
                 cells.append(('decompress', ['-n%d' % W, '-d'], data, plain,
                               'stream=%s W=%d gran=%s' % (name, W, gname), {'setenv': env}))
+    # trailing data that reaches into later input blocks: the reader may deliver them after the parser has finished
+    from lib import bzgen as _bg
+    for gl in ((45,) if quick else (5, 45, 200)):
+        tg = _bg.build([([_bg.Block(b'aaaaaaaaaaaaaaaaaaaabbbbbbbbbbbbbbbbbbbbbbbbbbbbb')], 1), ([_bg.Block(b'nine'), _bg.Block(b'zz')], 9)],
+                       trailing=(b'\x00trailing garbage ' * 12)[:gl])[0]
+        tplain = b'aaaaaaaaaaaaaaaaaaaabbbbbbbbbbbbbbbbbbbbbbbbbbbbb' + b'nine' + b'zz'
+        for W in Ws:
+            for env, gname in (({'LBZIP2_VERIF_IN_GRANUL': '8', 'LBZIP2_VERIF_OUT_GRANUL': '7'}, 'in8/out7'),
+                               ({'LBZIP2_VERIF_IN_GRANUL': '16'}, 'in16')):
+                if quick and (W == 1 or gname == 'in16'):
+                    continue
+                cells.append(('decompress', ['-n%d' % W, '-d'], tg, tplain, 'stream=2streams+trail%d W=%d gran=%s' % (gl, W, gname), {'setenv': env}))
     for n in ([0, 3, 70000] if quick else [0, 1, 3, 4, 5, 65536, 70000, 140000, 200000]):
         data = b'xy' + inputs.lcg(n - 2, 5) if n >= 2 else b'x' * n
         cells.append(('copy', ['-cdf'], data, data, 'copy n=%d' % n, {}))
